@@ -2707,6 +2707,8 @@ XPathProcessorImpl::LocationPathPattern()
 
     m_expression->appendOpCode(XPathExpression::eOP_LOCATIONPATHPATTERN);
 
+    const int   firstStepPos = m_expression->opCodeMapLength();
+
     bool    fNeedsStep = false;
 
     if(lookahead(XalanUnicode::charLeftParenthesis, 1) == true &&
@@ -2782,6 +2784,13 @@ XPathProcessorImpl::LocationPathPattern()
                 XalanMessages::UnexpectedTokenFound_1Param,
                 m_token);
         }
+    }
+
+    // An alternative of a pattern cannot be empty ("a|", "|a", "|").  A
+    // location path pattern without steps cannot be matched.
+    if (m_expression->opCodeMapLength() == firstStepPos)
+    {
+        error(XalanMessages::ExpectedNodeTest);
     }
 
     // Terminate for safety.
